@@ -56,10 +56,11 @@ type itObs struct {
 	Rest []int `json:"rest"`
 }
 type tcase struct {
-	H   []event   `json:"h"`
-	N0  int       `json:"n0"`
-	Its []itObs   `json:"its"`
-	Wk  [][][]int `json:"wk"` // per object: the sequence a fresh complete iteration must yield
+	H    []event   `json:"h"`
+	N0   int       `json:"n0"`
+	Cols int       `json:"cols"` // > 0: histories of a matrix with that many columns (views)
+	Its  []itObs   `json:"its"`
+	Wk   [][][]int `json:"wk"` // per object: the sequence a fresh complete iteration must yield
 }
 
 type shape struct {
@@ -175,7 +176,7 @@ var errSkip = fmt.Errorf("skip")
 
 // runCase executes one history on one container instantiation.
 // Returns nil (agrees), errSkip (history not expressible), or a mismatch.
-func runCase(c *tcase, in inst, sh shape, caseNo int, operand string) (mm *mismatch, skipped bool) {
+func runCase(c *tcase, in inst, other inst, sh shape, caseNo int, operand string) (mm *mismatch, skipped bool) {
 	if len(c.H) == 0 {
 		return nil, true
 	}
@@ -194,6 +195,20 @@ func runCase(c *tcase, in inst, sh shape, caseNo int, operand string) (mm *misma
 	if sh.kind == "matrix" && sh.rows*sh.cols != n0 {
 		return nil, true
 	}
+	opFlavour := caseNo % 3 // vector 2 created by "new2": same type / another sparse element type / dense
+	for i := range c.H {
+		e := &c.H[i]
+		if sh.kind != "matrix" && e.A == "vwalk" {
+			return nil, true
+		}
+		if sh.kind == "matrix" && (e.A == "new2" || e.A == "appendo" || e.O == 2) {
+			return nil, true
+		}
+		if opFlavour == 2 && e.O == 2 && e.A != "new2" && e.A != "write" && e.A != "reset" && e.A != "swap" &&
+			e.A != "reverse" && e.A != "permute" && e.A != "sort" {
+			opFlavour = 0 // a dense vector iterates differently: keep vector 2 sparse in such histories
+		}
+	}
 	concrete := caseNo%2 == 1
 	objs := map[int]cont{1: newCont(in, sh.kind, n0, sh.rows, sh.cols, concrete)}
 	its := map[int]iter{}
@@ -206,7 +221,7 @@ func runCase(c *tcase, in inst, sh shape, caseNo int, operand string) (mm *misma
 			e := &c.H[si]
 			step = si
 			o := objs[e.O]
-			if o == nil && !(e.A == "slice" && e.O == 2) {
+			if o == nil && !(e.A == "slice" && e.O == 2) && e.A != "new2" {
 				panic(fmt.Sprintf("driver: no object %d", e.O))
 			}
 			var err error
@@ -236,6 +251,46 @@ func runCase(c *tcase, in inst, sh shape, caseNo int, operand string) (mm *misma
 						}
 					}
 					objs[e.O] = s
+				}
+			case "new2":
+				for j, oj := range itObj {
+					if oj == 2 {
+						delete(its, j)
+						delete(itObj, j)
+					}
+				}
+				objs[2] = newOperand(in, other, opFlavour, e.I, concrete)
+			case "appendo":
+				var s cont
+				s, err = objs[1].appendObj(objs[2])
+				if err == nil {
+					for j := range itObj {
+						delete(its, j)
+						delete(itObj, j)
+					}
+					objs[1] = s
+					delete(objs, 2)
+				}
+			case "vwalk":
+				var full [][]int
+				full, err = o.viewWalk(e.I, e.K, e.P[0], e.P[1], e.P[2], e.P[3], how+si)
+				if err == nil {
+					// rows <<-1, q, x>> are the elements read through the view: compare with the content in the window
+					cols := c.Cols
+					vc := e.P[1] - e.P[0]
+					res = [][]int{}
+					for _, row := range full {
+						if row[0] >= 0 {
+							res = append(res, row)
+							continue
+						}
+						i, j := row[1]/vc, row[1]%vc
+						if want := e.C[e.O-1][(e.I+i)*cols+e.P[0]+j]; want != row[2] {
+							pending = &mismatch{what: "view_read", step: si, exp: vh.M{"i": i, "j": j, "value": want}, got: row[2]}
+							return
+						}
+					}
+					hasRes = true
 				}
 			case "promote":
 				for j, oj := range itObj {
@@ -377,6 +432,9 @@ func runCase(c *tcase, in inst, sh shape, caseNo int, operand string) (mm *misma
 			if le.N[oi-1] < 0 || oi > len(c.Wk) {
 				continue
 			}
+			if _, sparse := objs[oi].private(); !sparse {
+				continue // vector 2 in its dense flavour: iteration visits zeros as well
+			}
 			got, _ := objs[oi].walk(how)
 			want := c.Wk[oi-1]
 			if want == nil {
@@ -492,7 +550,11 @@ func replay(args []string) {
 				}
 				lruns, lskip, lmis := 0, 0, 0
 				lk := map[string]int{}
-				for _, sh := range shapesFor(c.N0) {
+				shapes := shapesFor(c.N0)
+				if c.Cols > 0 && c.N0%c.Cols == 0 { // histories with matrix views: that matrix shape (and the plain vector)
+					shapes = []shape{{"vector", 0, 0}, {"matrix", c.N0 / c.Cols, c.Cols}}
+				}
+				for _, sh := range shapes {
 					for ti, in := range types {
 						// vectors: every element type on every case; matrices: the element type rotates with the case
 						if sh.kind == "matrix" && (!allMat && ti != (jb.no+sh.rows)%len(types)) {
@@ -502,7 +564,7 @@ func replay(args []string) {
 							continue
 						}
 						wd.Begin(vh.M{"case": c, "type": in.Name, "kind": sh.kind})
-						m, skipped := runCase(&c, in, sh, jb.no, operand)
+						m, skipped := runCase(&c, in, types[(ti+1)%len(types)], sh, jb.no, operand)
 						wd.End()
 						if skipped {
 							lskip++
@@ -772,7 +834,7 @@ func oneOp(rng *rand.Rand, c cont, its []iter, e *rev, nmax int) (cont, bool) {
 		}
 		e.E = "appendv"
 		e.W = randVec(rng, 1+rng.Intn(nmax-d), 2)
-		s, _ := c.appendVector(e.W, rng.Intn(3))
+		s, _ := c.appendVector(e.W, rng.Intn(9))
 		kill()
 		return s, false
 	case x < 67: // arithmetic, kept small
@@ -825,6 +887,27 @@ func oneOp(rng *rand.Rand, c cont, its []iter, e *rev, nmax int) (cont, bool) {
 		its[j].Next()
 		e.R = [][]int{{posOf(its[j])}}
 	case x < 97:
+		if mc, ok := c.(*matCont); ok && rng.Intn(2) == 0 {
+			// iterate a view of the matrix
+			r0 := rng.Intn(mc.rows)
+			r1 := r0 + 1 + rng.Intn(mc.rows-r0)
+			c0 := rng.Intn(mc.cols)
+			c1 := c0 + 1 + rng.Intn(mc.cols-c0)
+			fi, fj := 0, 0
+			if rng.Intn(2) == 0 {
+				fi, fj = rng.Intn(r1-r0), rng.Intn(c1-c0)
+			}
+			e.E, e.I, e.K, e.X, e.P = "vwalk", r0, r1, mc.cols, []int{c0, c1, fi, fj}
+			full, _ := c.viewWalk(r0, r1, c0, c1, fi, fj, rng.Intn(4))
+			for _, row := range full {
+				if row[0] >= 0 {
+					e.R = append(e.R, row)
+				} else {
+					e.W = append(e.W, row[2]) // the window as read through the view, row-major
+				}
+			}
+			break
+		}
 		e.E = "walk"
 		e.R, _ = c.walk(rng.Intn(2))
 	default:
